@@ -396,3 +396,30 @@ PROPS["C10"] = dict(
     rule="cases: every (orig, adj) of MC_Adjust: <= MaxO original and <= MaxA adjustment tokens over Lines x Cols, adjustment displacements {(0,0),(0,2),(1,0),(1,1)}, without and with duplicated positions; seeded random pairs on grids up to 50x50 with up to ~56 tokens a side, a third of them with duplicated positions, tokens handed to the crate in shuffled order; distinct = distinct (orig, adj); non-trivial = both maps non-empty",
     assumptions=COMMON_ASSUMPTIONS,
 )
+
+def _corrupt_c09(e):
+    p2 = e["out"]["p2"]
+    if p2["toks"]:
+        p2["toks"][0][4] += 1
+    elif p2["sources"]:
+        p2["sources"][0] = p2["sources"][0] + [120]
+    else:
+        p2["file"] = ["zz"]
+    return True
+
+PROPS["C09"] = dict(
+    level="model_checking",
+    level_text="Rewrite.tla defines rewrite on top of the interning builder model: one step per token (re-add with the joined source name, optional name, contents following the name), then first-match prefix stripping. TLC runs the loop step by step on every small map x option combination and checks the statement's consequences on the model: same positions and resolution (minus stripped prefix, names dropped iff asked), nothing unreferenced, no duplicates before stripping, contents attached to the same names iff kept. Every enumerated (map, options) and seeded larger ones are rewritten by the real crate and the full projection of the result is compared by TLC with the specification's; Hermes maps additionally keep every token's enclosing function.",
+    level_note="'~' (common prefix) and load_local_source_contents are outside the property's quantifier; the ignore list is not part of the statement",
+    technique="TLA+ rewrite loop over the interning builder model, TLC bounded model checking of the resolution-preservation consequences, trace validation of real rewrite results",
+    mc=[
+        dict(module="MC_Rewrite", cfg="MC_Rewrite_quick.cfg", tiers=("quick",), workers=8),
+        dict(module="MC_Rewrite", cfg="MC_Rewrite_thorough.cfg", tiers=("thorough",), workers=14, timeout=3400, heap="24g"),
+    ],
+    trace="Trace_C09",
+    drive=dict(quick=dict(n=800, size=3), thorough=dict(n=16000, size=8)),
+    nontrivial=lambda e: e["out"].get("k") == "ok" and len(e["args"]["p1"].get("toks", [])) >= 1,
+    corrupt=_corrupt_c09,
+    rule="cases: every map of MC_Rewrite (3 source tables with a duplicate name / an unreferenced entry / order different from first use, names with a duplicate, 3 content patterns, <= MaxToks tokens) x {names} x {contents} x 5 prefix lists, built via the raw constructor and via decoding; seeded random maps (roots, duplicate/absolute/URL sources, partial contents) with random explicit prefixes and Hermes documents with one function map per source; distinct = distinct (map projection, options); non-trivial = at least one token",
+    assumptions=COMMON_ASSUMPTIONS,
+)
